@@ -900,6 +900,7 @@ func (ev *Eval) call(e ECall) TV {
 	case "emptyset":
 		ev.errorf("emptyset needs a type context; compare with forall instead")
 	case "held":
+		ev.ex.useHeld()
 		x := ev.eval(e.Args[0])
 		return TV{T: sSel(ev.ex.get(ev.state(), "HELD", "(Array Int Int)"), ev.mutexRef(x)), Ty: vtInt}
 	case "ite":
@@ -1290,25 +1291,78 @@ func (ex *Exec) resolveLocal(name string, pt *progPoint, st *State) (TV, bool) {
 		}
 	}
 	// A candidate binds the name at its own position (the DebugRef marking a definition, assignment or use; the
-	// phi; the alloc). It counts if that position has been executed when control is at pt and the value it refers
-	// to is computed; the latest such position wins.
+	// phi; the alloc). If that position has been executed when control is at pt, the binding counts from there.
+	// A DebugRef that has not been executed yet (a later use of the variable) still identifies the variable's
+	// value if that value is already computed and is not known under another variable's name (which would make
+	// the DebugRef an assignment `x = y` that has not happened yet); it then counts from where the value was defined.
+	defPos := func(c *cand) (*ssa.BasicBlock, int) {
+		if ins, ok := c.v.(ssa.Instruction); ok && ins.Block() != nil {
+			for i, x := range ins.Block().Instrs {
+				if x == ins {
+					return ins.Block(), i
+				}
+			}
+		}
+		return ex.fn.Blocks[0], -1
+	}
+	otherName := func(v ssa.Value) bool {
+		switch x := v.(type) {
+		case *ssa.Phi:
+			if x.Comment != "" && x.Comment != name {
+				return true
+			}
+		case *ssa.Alloc:
+			if x.Comment != "" && x.Comment != name {
+				return true
+			}
+		case *ssa.Parameter:
+			if x.Name() != name {
+				return true
+			}
+		case *ssa.Const:
+			return true
+		}
+		for _, b := range ex.fn.Blocks {
+			for _, ins := range b.Instrs {
+				if d, ok := ins.(*ssa.DebugRef); ok && !d.IsAddr && d.X == v {
+					if obj := d.Object(); obj != nil && obj.Name() != name {
+						return true
+					}
+				}
+			}
+		}
+		return false
+	}
+	type eff struct {
+		b *ssa.BasicBlock
+		i int
+	}
 	var best *cand
+	var bestE eff
 	for i := range cands {
 		c := &cands[i]
-		executed := (c.block == pt.block && c.idx < pt.idx) || (c.block != pt.block && c.block.Dominates(pt.block))
-		if !executed || !ex.availableAt(c.v, pt) {
+		if !ex.availableAt(c.v, pt) {
 			continue
+		}
+		executed := (c.block == pt.block && c.idx < pt.idx) || (c.block != pt.block && c.block.Dominates(pt.block))
+		e := eff{c.block, c.idx}
+		if !executed {
+			if otherName(c.v) {
+				continue
+			}
+			db, di := defPos(c)
+			e = eff{db, di}
 		}
 		if best == nil {
-			best = c
+			best, bestE = c, e
 			continue
 		}
-		if best.block == c.block {
-			if c.idx > best.idx {
-				best = c
+		if bestE.b == e.b {
+			if e.i > bestE.i {
+				best, bestE = c, e
 			}
-		} else if best.block.Dominates(c.block) {
-			best = c
+		} else if bestE.b.Dominates(e.b) {
+			best, bestE = c, e
 		}
 	}
 	if best == nil {
